@@ -5,6 +5,7 @@ mod rng;
 mod tuikit;
 mod m_c17;
 mod m_c18;
+mod m_c03ids;
 
 use std::io::Write;
 
@@ -57,6 +58,7 @@ fn main() {
         "c16" => m_c16::run(&args, &mut out),
         "c17" => m_c17::run(&args, &mut out),
         "c18" => m_c18::run(&args, &mut out),
+        "c03ids" => m_c03ids::run(&args, &mut out),
         other => { eprintln!("unknown mode {other}"); std::process::exit(2); }
     }
     out.w.flush().unwrap();
